@@ -22,7 +22,7 @@ for g in params:
     grp = getattr(p, g)
     ok = ok and isinstance(grp, ModelGroup) and any(isinstance(v, str) and v == g for v in vars(grp).values()) and len(grp.models) == 1 and grp.models[0] is m
     ok = ok and all(getattr(p, h) is None for h in params if h != g)
-print(json.dumps({"ok": bool(ok), "params": params}))
+print(json.dumps({"ok": bool(ok), "params": params, "groups": [str(g) for g in DetectionPipeline.MODEL_GROUPS]}))
 """
 
 FALLBACK = "def modelGroups : List String := []\ndef initParams : List String := []\ndef groupAttrIsOwnField : Bool := false"
@@ -79,9 +79,18 @@ def gen() -> str:
                     )
                 ok = ok and good and good_prop
             wired = ok
-            if not wired:
-                res = run_in_repo(WIRING_PROBE)
-                wired = bool(res and res.get("ok") and res.get("params") == params)
+    # the class itself is asked as well: it settles the tables when the text has another form than the pinned one
+    # (MODEL_GROUPS built from parts, wiring through a helper, ...), and must agree with the text where both speak
+    res = run_in_repo(WIRING_PROBE)
+    if res:
+        if not groups:
+            groups = list(res.get("groups") or [])
+        if not params:
+            params = list(res.get("params") or [])
+        if groups != list(res.get("groups") or []) or params != list(res.get("params") or []):
+            groups, params, wired = [], [], False  # text and class disagree: nothing is claimed
+        elif not wired:
+            wired = bool(res.get("ok"))
     return (
         f"def modelGroups : List String := {llist(groups)}\n"
         f"def initParams : List String := {llist(params)}\n"
